@@ -442,6 +442,11 @@ def state_sites(rel: str, tree: ast.Module, module_containers: set[str]) -> list
                 bindings(st.body, "state:class", (owner + "." if owner != "<module>" else "") + st.name)
 
     bindings(tree.body, "state:module", "<module>")
+    for st in tree.body:   # how the formatters are configured is part of how they are called
+        val = getattr(st, "value", None)
+        if isinstance(st, (ast.Assign, ast.AnnAssign)) and isinstance(val, ast.Call) and re.match(
+                r"^(isort\.(settings\.)?Config|Mode|black\.(Mode|FileMode))$", ast.unparse(val.func)):
+            out.append((rel, "<module>", "formatter", re.sub(r"\s+", " ", ast.unparse(st)), st.lineno))
     parent = {}
     for p_ in ast.walk(tree):
         for c in ast.iter_child_nodes(p_):
@@ -764,6 +769,44 @@ def find_expression(repo_deriver: "Deriver", rel: str, fn_name: str, expr: str) 
             except Exception:  # noqa
                 continue
     return False
+
+
+def source_constants(repo: str) -> dict:
+    """Data the model hard-codes, read from the SOURCE (AST) of the implementation; a key is absent when the
+    derivation no longer applies (the check then fails closed)."""
+    base = os.path.join(repo, "ariadne_codegen")
+    out = {}
+    try:
+        tree = ast.parse(open(os.path.join(base, "schema.py"), encoding="utf-8").read())
+        for fn in ast.walk(tree):
+            if isinstance(fn, ast.FunctionDef) and fn.name == "walk_graphql_files":
+                for n in ast.walk(fn):
+                    if isinstance(n, ast.Assign) and isinstance(n.targets[0], ast.Name) and n.targets[0].id == "extensions":
+                        out["graphql_extensions"] = list(ast.literal_eval(n.value))
+    except Exception:  # noqa
+        pass
+    try:
+        tree = ast.parse(open(os.path.join(base, "client_generators", "constants.py"), encoding="utf-8").read())
+        consts = {}
+        for st in tree.body:
+            if isinstance(st, ast.Assign) and isinstance(st.targets[0], ast.Name):
+                if isinstance(st.value, ast.Constant) and isinstance(st.value.value, str):
+                    consts[st.targets[0].id] = st.value.value
+        shared = {}
+        for st in tree.body:
+            if isinstance(st, ast.Assign) and isinstance(st.targets[0], ast.Name) and isinstance(st.value, ast.Call) \
+                    and ast.unparse(st.value.func) == "ast.ImportFrom":
+                kw = {k.arg: k.value for k in st.value.keywords}
+                names = []
+                for el in kw["names"].elts:
+                    a0 = el.args[0]
+                    names.append(consts[a0.id] if isinstance(a0, ast.Name) else a0.value)
+                mod = ast.unparse(kw["module"])
+                shared[st.targets[0].id] = {"module": mod, "names": names, "level": ast.literal_eval(kw["level"])}
+        out["shared_imports"] = shared
+    except Exception:  # noqa
+        pass
+    return out
 
 
 def key_counts(sites) -> dict[tuple, list[int]]:
